@@ -53,6 +53,17 @@ def gen_sessions(rng, count):
     out.append(dict(id="c3", tab=0, file="\tq = 1 / 0\n\tq\n", expr="\t1/0", stdin=None))
     out.append(dict(id="c4", tab=255, file="\tq = 1 / 0\n\tq", expr="\t1/0\n", stdin=None))
     out.append(dict(id="c5", tab=4, file="", expr="", stdin=None))
+    # sessions whose output could pick up ambient state: names in diagnostics after copies, listings with every
+    # grouping / operator / unit symbol, clear, every diagnostic kind
+    copies = "poly(x) = x*x + 1\ncpa = poly\ncpb = poly\ncpc = poly\nss = sin\n"
+    out.append(dict(id="r0", tab=4, file=copies, expr="poly(1, 2); cpb(1, 2); cpa(); cpc(1,2,3); ss(1,2); delete cpa(q, r); cpa; cpb", stdin=None))
+    out.append(dict(id="r1", tab=4, file=copies, expr=None, stdin=["poly(1, 2)", "cpb(1, 2)", "delete cpc(zz)", "cpc", "clear", "cpa", "poly"], end="exit", after=[]))
+    listing = ("half(x) = ⌈x/2⌉ + ⌊x⌋ - |x| + √x ^ 2 % 3 + (x)! * [x, 1; 2, 3 km as m] dot [1, 2; 3, 4] cross x + 5 µm + 2 °C as °F\n"
+               "half(0) = 3 µg + 1 KiB\nhalf(x, yy) = x • yy × x - -x\n")
+    out.append(dict(id="r2", tab=4, file=listing, expr="half; half(1); half(0); half(1, 2)", stdin=None))
+    out.append(dict(id="r3", tab=8, file=listing, expr=None, stdin=["half", "half(2)", "⌈2.5⌉ + ⌊2.5⌋", "5 µm", "20 °C as °K", "[1, 2; 3, 4]"], end="EXIT", after=[]))
+    out.append(dict(id="r4", tab=4, file=None, expr="1/0; nope; sin(1,2); ceil(i); 5 m + 1; 2.5!; |sin|; ⌈i⌉; 3(4); [1, 5 m]; inverse([1,2;2,4]); 1 m as kg; pi = 3; delete sin; delete nope; ss = sin; ss(a) = a; delete ss(a); delete pi(a); e(x) = x", stdin=None))
+    out.append(dict(id="r5", tab=4, file="a1 = 1\nb1 = 2\nc1 = 3\nd1 = [1,2;3,4]\ne1 = 5 km\nf1(x) = x\n", expr="clear; a1; b1; c1; d1; e1; f1; pi; sin", stdin=None))
     out.append(dict(id="c6", tab=4, file=None, expr=None, stdin=[], end=None, after=[]))
     return out
 
@@ -144,7 +155,8 @@ def run_front(ctx, repeat=1, cross_modes=True, vary_env=False):
     envs = [None]
     if vary_env:
         envs = [None, {"LANG": "C", "LC_ALL": "C", "RUST_BACKTRACE": "1"}, {"LANG": "tr_TR.UTF-8", "LC_ALL": "tr_TR.UTF-8", "RUST_BACKTRACE": "0"},
-                {"LANG": "de_DE.UTF-8", "RUST_BACKTRACE": "full", "CALC_UNUSED": "1", "COLUMNS": "10"}]
+                {"LANG": "de_DE.ISO-8859-1", "RUST_BACKTRACE": "full", "CALC_UNUSED": "1", "COLUMNS": "10", "LC_NUMERIC": "de_DE"},
+                {"LANG": "POSIX", "TZ": "Asia/Tokyo", "NO_COLOR": "1"}]
     for s in sessions:
         obs = a.get(s["id"], [])
         if s["expr"] is None:
